@@ -2,6 +2,8 @@
 from __future__ import annotations
 
 import math
+import threading
+import zlib
 
 from mc.kernel import observed_warnings
 from mc.ref.interp import Outcome
@@ -50,7 +52,21 @@ def exc_names(e) -> tuple:
 
 
 def parse_one(defn, raw: bytes, root=None):
-    """Parse a single packet with parse_ccsds_packet.  Returns an observation tuple."""
+    """Parse a single packet with parse_ccsds_packet.  Returns an observation tuple.
+    One packet in sixteen (chosen by its content, so that a replay takes the same route) is parsed on a worker thread instead of the thread that
+    imported the library: a decode does not depend on the thread it runs on."""
+    if type(raw) is bytes and zlib.crc32(raw) % 16 == 3 and threading.current_thread() is threading.main_thread():
+        box = []
+        th = threading.Thread(target=lambda: box.append(_parse_one_here(defn, raw, root)))
+        th.start()
+        th.join()
+        if box:
+            return box[0]
+        return ("raised", ("WorkerThreadDied",), "the decode ended the worker thread with a BaseException", [])
+    return _parse_one_here(defn, raw, root)
+
+
+def _parse_one_here(defn, raw: bytes, root=None):
     from space_packet_parser.exceptions import UnrecognizedPacketTypeError
     from space_packet_parser.packets import CCSDSPacket
     pkt = CCSDSPacket(raw_data=raw)
